@@ -74,9 +74,13 @@ func verifyFunction(w *World, fn *ssa.Function, c *Contract, sweep bool) (res *F
 	e.sc.assert("(>= " + alloc0 + " 0)")
 	e.ghostInit = true
 	var params []Val
-	for _, p := range fn.Params {
+	for i, p := range fn.Params {
 		v := e.freshVal("p_"+p.Name(), p.Type())
 		e.assumeAllocated(v, p.Type(), alloc0)
+		if sweep && i == 0 && fn.Signature.Recv() != nil && isRefLike(p.Type()) {
+			// sweep convention: methods are called on non-nil receivers
+			e.sc.assert("(not (= " + v.T + " 0))")
+		}
 		params = append(params, v)
 		res.Watch = append(res.Watch, v.T)
 	}
